@@ -199,11 +199,14 @@ def make_terminal_class():
     def __init__(self):
       super(Terminal, self).__init__()
       self.responses = {}     # rid -> list of (time, msg)
+      self.on_response = None # optional callable(context, msg) run after recording (may raise / re-enter)
 
     def AsyncProcessRequest(self, *a):
       raise NotImplementedError()
 
     def AsyncProcessResponse(self, sink_stack, context, stream, msg):
       self.responses.setdefault(context, []).append((vloop.loop().now(), msg, stream))
+      if self.on_response is not None:
+        self.on_response(context, msg)
 
   return Terminal
